@@ -4,7 +4,7 @@
    execution only. *)
 From Coq Require Import List NArith ZArith Bool Arith.
 Import ListNotations.
-From Stam Require Import Base.Sx Model.Offset Model.Store Model.Loader Model.Csv Spec.CsvSpec Proofs.Loader Proofs.Csv Proofs.CsvSet.
+From Stam Require Import Base.Sx Model.Offset Model.Store Model.Loader Model.Csv Spec.CsvSpec Proofs.Loader Proofs.StoreSets Proofs.Csv Proofs.CsvSet Proofs.CsvResolve.
 
 (* splitting a column on ';' gives back the values that were joined, for any number of values *)
 Theorem C15_split_join : forall l, (forall x, In x l -> has_semi x = false) -> l <> [] ->
@@ -44,6 +44,24 @@ Theorem C15_unpack_pack : forall s h a r, store_ok s = true -> get_ann s h = Som
     csv_row_now r = Ok {| Loader.ab_id := opt (id_column h a); Loader.ab_data := ds;
                           Loader.ab_target := Some (target_of (a_kind a) bs) |}.
 Proof. exact pack_row_decodes. Qed.
+
+(* ... and resolves to the same target: for every reachable store (any history of the store
+   operations) with well-formed ranges, the builder decoded from the row of a live annotation,
+   resolved by annotate()'s selector resolution against that store, gives the annotation's kind
+   and, leaf by leaf, the same items and the same absolute ranges (relative offsets and the four
+   alignments through C04, ids through the exactness of the id maps of C03, items without public
+   id through their temporary id); the data references resolve to the annotation's data *)
+Theorem C15_reresolve : forall ops h a r, Forall op_ok ops ->
+  store_ok (run ops) = true -> ids_fit (run ops) -> get_ann (run ops) h = Some a -> shape_ok a ->
+  pack_row (run ops) h a = Some r ->
+  exists bs ds tb lfs',
+    csv_row_now r = Ok {| Loader.ab_id := opt (id_column h a); Loader.ab_data := ds;
+                          Loader.ab_target := Some (target_of (a_kind a) bs) |}
+    /\ target_of_loader (target_of (a_kind a) bs) = Some tb
+    /\ resolve_target (run ops) tb = (run ops, Some (a_kind a, lfs'))
+    /\ map (leaf_desc (run ops)) lfs' = map (leaf_desc (run ops)) (a_leaves a)
+    /\ refs_resolve (run ops) a ds.
+Proof. exact reachable_reresolve. Qed.
 
 (* offsets in all four alignments: written, parsed, resolved on a text of the same length they
    give the same absolute range (through C04's report/resolve theorems) *)
